@@ -612,8 +612,8 @@ Definition vm_step (code : list instr) (st : vmstate) : vout :=
         match trys st with
         | [] => Crashed
         | tf :: r =>
-            (* only finallyPos is reset; catchPos is left as it is *)
-            let tf' := mkFrame (f_catch tf) None (f_ret tf) (f_exc tf) (f_iterLen tf) (f_sp tf) (f_marker tf) in
+            (* finallyPos and (since fix 303bd95, finding C08-N1) catchPos are reset *)
+            let tf' := mkFrame None None (f_ret tf) (f_exc tf) (f_iterLen tf) (f_sp tf) (f_marker tf) in
             Running (set_trys next (tf' :: r))
         end
     | ILeaveFinally =>
